@@ -289,10 +289,10 @@ static int exp_class(double a, double b) {
 int main(int argc, char **argv) {
     vh_init(argc, argv);
     vh_sandbox_init();
-    vh_gb_init(0, 4096);
-    vh_gb_init(1, 4096);
-    vh_gb_init(2, 4096);
-    vh_gb_init(3, 4096);
+    vh_gb_init(0, 70000 * 26 + 4096);
+    vh_gb_init(1, 70000 * 26 + 4096);
+    vh_gb_init(2, 70000 * 8 + 4096);
+    vh_gb_init(3, 70000 * 8 + 4096);
     vm_init((size_t)64 << 20);
     build_alphabet();
     vh_infostr("double_alphabet", "%zu", nDA);
@@ -394,6 +394,81 @@ int main(int argc, char **argv) {
                 vh_class(ck, "start %zu", start);
             }
         }
+    }
+    /* every length: the packed sign / exponent / mantissa sections put element i at bit i*width of its section, so
+     * every length 1..L (and the listed large ones) is a different packing; values cycle through the alphabet (mixed
+     * magnitudes and specials) or are all normal with scattered mantissas */
+    if (vh_section_begin("lengths")) {
+        static double big[70000];
+        size_t L = vh_thorough ? 1200 : 300;
+        static const size_t LISTED[] = {2047, 2048, 2049, 4095, 4096, 4097, 8191, 8192, 8193, 10000, 65535, 65536, 65537};
+        size_t nl = L + sizeof LISTED / sizeof *LISTED;
+        for (size_t li = 0; li < nl; li++) {
+            for (int flavour = 0; flavour < 2; flavour++) {
+                if (!vh_case()) {
+                    continue;
+                }
+                size_t n = li < L ? li + 1 : LISTED[li - L];
+                if (!vh_thorough && n > 10000) {
+                    continue;
+                }
+                for (size_t i = 0; i < n; i++) {
+                    if (flavour == 0) {
+                        big[i] = DA[(li * 31 + i * 97) % nDA];
+                    } else {
+                        /* normal values within 200 binades of each other, scattered mantissas */
+                        uint64_t mant = (i * 0x9E3779B97F4A7C15ULL + li) & 0xFFFFFFFFFFFFFULL;
+                        big[i] = mk((int)(i & 1), 900 + (int)((i * 7 + li) % 200), mant);
+                    }
+                }
+                for (int pi = 0; pi < 4; pi++) {
+                    for (int mode = 0; mode < 3; mode++) {
+                        if (n > 1200 && (pi + mode) % 2 && !vh_thorough) {
+                            continue;
+                        }
+                        snprintf(desc, sizeof desc, "array of %zu %s, precision %s mode %s", n, flavour ? "normal values with scattered mantissas" : "alphabet values (stride 97)", PN[pi], MN[mode]);
+                        run_case(big, n, pi, mode, 0);
+                    }
+                }
+                char ck[40];
+                snprintf(ck, sizeof ck, "length/%s/%s", n <= 8 ? "1-8" : n <= 64 ? "9-64" : n <= 300 ? "65-300" : n <= 1200 ? "301-1200" : n <= 10000 ? "listed<=10000" : "listed>10000", flavour ? "normal" : "mixed");
+                vh_class(ck, "n=%zu", n);
+            }
+        }
+    }
+    /* giant (only where VERIF_GIANT is set: thorough tier, pinned build): more than 2^32 bits of packed mantissas in one
+     * array - FULL precision needs 82,595,525 normal values */
+    if (getenv("VERIF_GIANT") && vh_section_begin("giant") && vh_case()) {
+        size_t n = 82600000;
+        double *in = malloc(n * 8), *out = malloc(n * 8);
+        uint8_t *enc = malloc(varintFloatMaxEncodedSize(n, VARINT_FLOAT_PRECISION_FULL) + 64);
+        if (in && out && enc) {
+            for (size_t i = 0; i < n; i++) {
+                in[i] = mk((int)(i & 1), 1000 + (int)(i % 37), (i * 0x9E3779B97F4A7C15ULL) & 0xFFFFFFFFFFFFFULL);
+            }
+            memset(out, 0xAB, n * 8);
+            snprintf(desc, sizeof desc, "array of %zu normal values with scattered mantissas, precision FULL mode INDEPENDENT", n);
+            size_t w = varintFloatEncode(enc, in, n, VARINT_FLOAT_PRECISION_FULL, VARINT_FLOAT_MODE_INDEPENDENT);
+            size_t used = w ? varintFloatDecode(enc, n, out) : 0;
+            vh_count("calls", 2);
+            if (w == 0 || used != w) {
+                vh_fail("float.Decode", "length_disagreement", trig, "%s: encoder wrote %zu, decoder consumed %zu", desc, w, used);
+            } else {
+                for (size_t i = 0; i < n; i++) {
+                    if (d2u(out[i]) != d2u(in[i])) {
+                        vh_fail("float.Decode", "full_precision_not_bit_exact", trig, "%s: element %zu 0x%016" PRIx64 " decoded 0x%016" PRIx64, desc, i, d2u(in[i]), d2u(out[i]));
+                        break;
+                    }
+                }
+            }
+            vh_count("cases", 1);
+            vh_class("giant/FULL", "%zu values", n);
+        } else {
+            vh_flag("giant_allocated", 0);
+        }
+        free(in);
+        free(out);
+        free(enc);
     }
     /* automatic precision selection */
     if (vh_section_begin("auto")) {
